@@ -748,7 +748,8 @@ func (w *c01World) opMark() {
 // stands re-reads the channel entry and only stamps positionCheckTime), so it has no label; an
 // INVALID verdict spawns the same insufficient-state unsubscribe / disconnect, under the same guard
 // (subscribed, positioned), as the channel medium's marker reaching the subscription, and is
-// replayed as that action (LMarker; LDeliver; LCheck).  Only once the subscribe finished.
+// replayed as that action (LMarker; LDeliver; LCheck) at the point where the verdict is determined
+// (snapshot and stream top read).  Only once the subscribe finished.
 func (w *c01World) opPosCheck(mid []c01Op) {
 	if w.sc.Medium || !w.sc.Pos || w.curPh < 6 || w.blocked != nil || w.locked || w.tr.isClosed() || !w.isSubscribed() {
 		return
@@ -761,17 +762,19 @@ func (w *c01World) opPosCheck(mid []c01Op) {
 		}
 	}
 	done := make(chan struct{})
-	endedInside := false
+	gateIdx, gateFl := -1, 0
 	go func() { w.client.updatePresence(); close(done) }()
 	select {
 	case <-w.arrive:
+		// position snapshot and stream top are both read: the verdict is determined here, the
+		// driver learns it after the release
+		gateIdx, gateFl = len(w.sched), len(w.fl)
 		for _, op := range mid {
 			switch op.K {
 			case "pub", "dup", "drop", "deliver":
 				w.runOps([]c01Op{op})
 			}
 		}
-		endedInside = w.tr.isClosed() || !w.isSubscribed()
 		w.release <- struct{}{}
 		select {
 		case <-done:
@@ -784,17 +787,15 @@ func (w *c01World) opPosCheck(mid []c01Op) {
 	}
 	w.br.hook = nil
 	if atomic.LoadInt32(&w.insuff) > w.insuffH {
-		// invalid verdict ("client insufficient state from periodic check")
-		w.emitL("LMarker")
-		w.emitL(fmt.Sprintf("(LDeliver %d%%nat false)", len(w.fl)))
-		w.emit("HTail")
-		if endedInside {
-			// the subscription had been ended by a delivery inside the check: the spawned
-			// goroutine finds nothing to end
-			w.insuffH = atomic.LoadInt32(&w.insuff)
-		} else {
-			w.settleInsufficient()
+		// invalid verdict ("client insufficient state from periodic check"): the unsubscribe /
+		// disconnect is spawned whatever became of the subscription inside the check (the guard
+		// was evaluated with the snapshot), so the action sits where the verdict was determined
+		if gateIdx < 0 {
+			gateIdx, gateFl = len(w.sched), len(w.fl)
 		}
+		ins := []string{"(HL LMarker)", fmt.Sprintf("(HL (LDeliver %d%%nat false))", gateFl), "HTail"}
+		w.sched = append(w.sched[:gateIdx:gateIdx], append(ins, w.sched[gateIdx:]...)...)
+		w.settleInsufficient()
 	}
 }
 
